@@ -11,7 +11,7 @@ func main() {
 	R.Rule("states = complete executions (schedules) of tuples of read-only operations on shared objects; a transition is one complete execution of the instrumented real code under one schedule of the cooperative scheduler (every basic block is a scheduling point), or one free-running round under the race detector; oracle: every thread's result equals its result when run alone (and the reference value), shared objects and generator tables bit-identical afterwards, no panic, no race report; non-trivial = every schedule / round (each has at least one context switch between operations on shared state)")
 	R.Assume("scheduling points are basic blocks and calls of the instrumented library packages; finer interleavings of individual memory accesses are delegated to the free-running -race pass; the Go memory model's weak behaviours are not enumerated; fiat routines are atomic (they touch only their arguments)")
 	switch os.Getenv("VERIF_RUN") {
-	case "race":
+	case "race", "race-purego":
 		mainRace()
 	default:
 		mainSched()
